@@ -279,6 +279,39 @@ pub fn check(b: &Bound, c: &Case) -> Result<Option<String>, String> {
     Ok(None)
 }
 
+/// Wide models (no explicit-state binding possible): the printed numbers must be the library's numbers
+/// (f64, printed by Display - the same text the tool prints when it formats the same value).
+pub fn check_wide(model: &str, print: &str) -> Result<Option<String>, String> {
+    let big = crate::bigmodels::load(model, 1)?;
+    let dir = tempfile::tempdir().map_err(|e| e.to_string())?;
+    let mpath = dir.path().join("model.aeon");
+    std::fs::write(&mpath, big.bn.to_string()).map_err(|e| e.to_string())?;
+    let names = big.var_names();
+    let formulas: Vec<String> = vec!["True".into(), names[0].clone(), format!("~ {}", names[names.len() - 1]), "!{x}: AX {x}".into(), format!("EF ({} & {})", names[0], names[1])];
+    let fpath = dir.path().join("f.txt");
+    std::fs::write(&fpath, formulas.join("\n") + "\n").map_err(|e| e.to_string())?;
+    let out = cli::run(&cli::checker_bin(), &[mpath.to_str().unwrap(), fpath.to_str().unwrap(), "-p", print], None, 120.0)?;
+    if out.timed_out {
+        return Ok(Some(format!("{model}: the tool did not finish within 120 s")));
+    }
+    if out.panicked() {
+        return Ok(Some(format!("{model}: the tool crashed: {}", crate::report::truncate(&out.stderr, 300))));
+    }
+    let blocks = cli::parse_blocks(&out.stdout).map_err(|e| format!("cannot parse tool output: {e}"))?;
+    if blocks.len() != formulas.len() {
+        return Ok(Some(format!("{model}: {} result blocks for {} formulae", blocks.len(), formulas.len())));
+    }
+    let texts: Vec<&str> = formulas.iter().map(|s| s.as_str()).collect();
+    let lib = mc::model_check_multiple_formulae_dirty(texts, &big.graph).map_err(|e| format!("library: {e}"))?;
+    for (i, bl) in blocks.iter().enumerate() {
+        let want = (lib[i].approx_cardinality(), lib[i].colors().approx_cardinality(), lib[i].vertices().approx_cardinality());
+        if (bl.results, bl.colors, bl.states) != want {
+            return Ok(Some(format!("{model} / -p {print}: formula {:?}: tool prints {} results / {} colours / {} states, the library's set has {} / {} / {}", formulas[i], bl.results, bl.colors, bl.states, want.0, want.1, want.2)));
+        }
+    }
+    Ok(None)
+}
+
 /// Failure configurations: a message, no crash.
 pub fn check_failure(b: &Bound, which: &str) -> Option<String> {
     let dir = tempfile::tempdir().ok()?;
@@ -394,6 +427,12 @@ pub fn replay(case: &Value) -> Option<String> {
     let b = Bound::new("replay", &spec, 0).ok()?;
     if let Some(w) = case.get("failure").and_then(|w| w.as_str()) {
         return check_failure(&b, w);
+    }
+    if let Some(m) = case.get("wide").and_then(|w| w.as_str()) {
+        return match check_wide(m, case["print"].as_str().unwrap_or("summary")) {
+            Ok(v) => v,
+            Err(e) => Some(format!("case not executable: {e}")),
+        };
     }
     let c: Case = serde_json::from_value(case["case"].clone()).ok()?;
     match check(&b, &c) {
@@ -522,6 +561,13 @@ pub fn run(tier: &str) -> Result<Report, String> {
         }
     }
     rep.distinct_nontrivial = rep.evaluations;
+    // wide models: counts beyond 2^53 and 2^64
+    for (model, print) in [("synthetic:chain60", "summary"), ("synthetic:chain70", "summary"), ("synthetic:chain70", "with-progress"), ("synthetic:chain58p", "summary")] {
+        rep.evaluations += 1;
+        if let Some(w) = check_wide(model, print)? {
+            rep.violations.push(Violation { case: json!({"kind": "cli", "wide": model, "print": print, "net": by_name(&nets, "con2").spec}), what: w, size: 3 });
+        }
+    }
     // failure configurations
     let failures = [
         "missing model", "corrupt model", "model with unknown extension", "missing formula file", "invalid formula", "free variable", "unknown proposition", "wild-card without -e",
@@ -538,7 +584,7 @@ pub fn run(tier: &str) -> Result<Report, String> {
     rep.set("failure_configurations", json!(failures));
     rep.sample(json!({"network": "con2", "format": "sbml", "layout": 6, "print": "exhaustive", "-o": true, "formulae": plain_lists[1]}));
     rep.sample(json!({"formula_file_layout_6": formula_file(&plain_lists[2], 6)}));
-    rep.rule = format!("the hctl-model-checker binary built from the working tree is executed on {which:?} x model format (aeon, bnet, sbml where the format reproduces the network) x {LAYOUTS} formula-file layouts (comments, blank lines, surrounding blanks/tabs, CRLF, no final newline, mixed) x 4 print options x with/without -o x 3 plain + 2 extended formula lists, plus context archives whose sets are not confined to the valid colours (whole symbolic space, a raw state variable) on constrained networks, plus four networks whose variable names are unusual as data (Ca_extra_cell / b_extra_1, x / xx, a / ab, EF1 / TRUE) with five formulae each, plus 24 single-operator formula files (each unary / binary / hybrid operator and pattern in a file of its own) (context archive with labels p, d, dom_1 written for the k the tool derives), plus context archives written for k-1, k+1, k+2 and 18 failure configurations (5 of them formula files that cannot be read or parsed completely: the tool must report a problem or evaluate every formula, never a silent prefix). Compared: order and text of Formula blocks, printed result/colour/state counts vs exact counts of the library's sets, exhaustive state listing, archive entry list, formulae.txt, every archived BDD vs model_check_multiple_(extended_)formulae_dirty; failures must produce a message and no crash. distinct_nontrivial = executed configurations");
+    rep.rule = format!("the hctl-model-checker binary built from the working tree is executed on {which:?} x model format (aeon, bnet, sbml where the format reproduces the network) x {LAYOUTS} formula-file layouts (comments, blank lines, surrounding blanks/tabs, CRLF, no final newline, mixed) x 4 print options x with/without -o x 3 plain + 2 extended formula lists, plus context archives whose sets are not confined to the valid colours (whole symbolic space, a raw state variable) on constrained networks, plus wide synthetic models (60 / 70 variables: counts beyond 2^53 and 2^64 must be printed as the library's numbers), plus four networks whose variable names are unusual as data (Ca_extra_cell / b_extra_1, x / xx, a / ab, EF1 / TRUE) with five formulae each, plus 24 single-operator formula files (each unary / binary / hybrid operator and pattern in a file of its own) (context archive with labels p, d, dom_1 written for the k the tool derives), plus context archives written for k-1, k+1, k+2 and 18 failure configurations (5 of them formula files that cannot be read or parsed completely: the tool must report a problem or evaluate every formula, never a silent prefix). Compared: order and text of Formula blocks, printed result/colour/state counts vs exact counts of the library's sets, exhaustive state listing, archive entry list, formulae.txt, every archived BDD vs model_check_multiple_(extended_)formulae_dirty; failures must produce a message and no crash. distinct_nontrivial = executed configurations");
     rep.assumptions.push("counts are compared with exact cardinalities computed from the point-wise read-back of the library's sets on valid colours".into());
     Ok(rep)
 }
